@@ -17,6 +17,14 @@ BUDGET = {"quick": 120.0, "thorough": 3300.0}
 def _apply_variant(op, var):
     o = copy.deepcopy(op)
     t = var["type"]
+    if t == "carrier_reverse":
+        for name in sorted(o["data"]):
+            spec = o["data"][name]
+            if spec["kind"] in ("df", "parquet_df"):
+                spec["rows"] = spec["rows"][::-1]
+            elif spec["kind"] == "csv_text":
+                lines = spec["text"].rstrip("\n").split("\n")
+                spec["text"] = "\n".join([lines[0]] + lines[1:][::-1]) + "\n"
     if t in ("carrier_rows", "carrier_cols"):
         rng = random.Random(var["seed"])
         for name in sorted(o["data"]):
@@ -75,6 +83,9 @@ def _child(op, variants):
 
 
 def _variants_for(op, rng, quick):
+    if (op.get("meta") or {}).get("sampling"):
+        return [{"type": "carrier_rows", "seed": rng.randrange(1 << 30)}, {"type": "carrier_reverse"},
+                {"type": "carrier_cols", "seed": rng.randrange(1 << 30)}, {"type": "seam", "salt": rng.randrange(1, 1 << 30)}]
     vs = []
     nrows = {}
     for name, spec in (op.get("data") or {}).items():
@@ -104,7 +115,49 @@ def _variants_for(op, rng, quick):
     return vs
 
 
+def sampling_workload(rng):
+    """Inputs longer than any plausible inference sample (1k-20k rows) whose rows are homogeneous except for a
+    few odd ones (a date-time among dates, a fraction among whole numbers, a wide integer, a non-null among
+    nulls, a long string), stored at the end in the base order: a loader that infers anything from a leading
+    sample of the physical rows gives a different result when the rows are permuted."""
+    n = rng.choice([1100, 1500, 2100, 3000, 5000, 12000, 21000])
+    odd_at = sorted(rng.sample(range(n - 40, n), rng.choice([1, 2, 5])))
+    comps = [{"name": "Id_1", "type": "Integer", "role": "Identifier", "nullable": False},
+             {"name": "Me_d", "type": "Date", "role": "Measure", "nullable": True},
+             {"name": "Me_n", "type": "Number", "role": "Measure", "nullable": True},
+             {"name": "Me_i", "type": "Integer", "role": "Measure", "nullable": True},
+             {"name": "Me_s", "type": "String", "role": "Measure", "nullable": True},
+             {"name": "Me_o", "type": "Number", "role": "Measure", "nullable": True},
+             {"name": "At_b", "type": "Boolean", "role": "Attribute", "nullable": True}]
+    cols = [c["name"] for c in comps]
+    rows = []
+    for i in range(n):
+        odd = i in odd_at
+        rows.append([i + 1,
+                     "2020-05-19T12:30:00" if odd else "2020-%02d-%02d" % (1 + i % 12, 1 + i % 28),
+                     2.5 if odd else float(i % 7),
+                     (2 ** 40 + i) if odd else i % 100,
+                     ("x" * 300) if odd else "v%d" % (i % 9),
+                     1.25 if odd else None,
+                     (i % 2 == 0) if odd else None])
+    kind = rng.choice(["df", "df", "csv_text", "parquet_df"])
+    if kind == "csv_text":
+        data = {"DS_1": {"kind": "csv_text", "text": gen.csv_text(cols, rows)}}
+    else:
+        data = {"DS_1": {"kind": kind, "columns": cols, "rows": rows}}
+    stmts = rng.sample(["R_copy <- DS_1;", "R_f <- DS_1[filter Me_n <> Me_o or isnull(Me_o)];", "R_c <- DS_1[calc Me_x := Me_n * 2 + Me_i];",
+                        "R_a <- DS_1[aggr Me_t := sum(Me_n), Me_m := max(Me_i), Me_k := count(Me_o) group by At_b];" if False else "R_a <- sum(DS_1[keep Me_n, Me_i, Me_o]);",
+                        "R_s <- DS_1[filter length(Me_s) > 10];", "R_d <- DS_1[calc Me_y := cast(Me_d, string)][keep Me_y];",
+                        "R_o <- DS_1[filter not isnull(Me_o) or At_b];"], rng.choice([2, 3, 4]))
+    return {"api": "run", "script": "\n".join(stmts) + "\n", "structures": {"datasets": [{"name": "DS_1", "DataStructure": comps}]},
+            "data": data, "kwargs": {"return_only_persistent": False}, "env": {}, "output_folder": False, "meta": {"sampling": n}}
+
+
 def _make_op(src):
+    if src[0] == "sample":
+        o = sampling_workload(random.Random(src[1]))
+        o["sid"] = "sample:%d" % src[1]
+        return o
     if src[0] == "gen":
         rng = random.Random(src[1])
         w = gen.generate(rng, viral=rng.random() < 0.5, rows=rng.choice([2, 3, 3, 4, 4, 5, 6, 8, 12]),
@@ -180,9 +233,10 @@ def run(ctx):
     items = [("gen", rng.randrange(1 << 30)) for _ in range(n_gen)]
     items += [("corpus", e) for e in rng.sample(cps, min(n_corpus, len(cps)))]
     rng.shuffle(items)
+    items = [("sample", rng.randrange(1 << 30)) for _ in range(6 if quick else 200)] + items
     size = 8
     tasks = [{"items": items[i:i + size], "quick": quick, "seed": ctx.seed} for i in range(0, len(items), size)]
-    done = ctx.map("task_batch", tasks, budget_s=ctx.budget_s * 0.85)
+    done = ctx.map("task_batch", tasks, budget_s=ctx.budget_s * 0.85, min_tasks=24)
     violations, nontrivial, samples = [], set(), []
     n_eval = n_valid = n_skipped = n_scripts = n_viral = 0
     skipped_why = {}
